@@ -17,9 +17,11 @@ from vlib import stubs
 from vlib.harness import REPO, VERIF_DIR, Clause, HarnessError, Rec, Violation, digest, drive, jdump
 
 from outrank import core_ranking as cr
+from outrank import task_ranking as tr
 
 ID = 'C09'
-RULE = ('Layer 1 (owned schedules, in-process): generated frames (2-20 columns, so that batches exceed 128 combinations) x '
+RULE = ('Batching clause: the ranking task in-process with pools of 1 and 16 workers on a file whose mini-batch exceeds 2^24/16 cells '
+        '(batch boundaries and scores must not depend on the worker count). Layer 1 (owned schedules, in-process): generated frames (2-20 columns, so that batches exceed 128 combinations) x '
         'configurations (incl. --mi_stratified_sampling_ratio < 1 and the noise controls drawn from the global numpy RNG) x schedules (execution permutation seed, 1-16 logical workers, '
         'optionally real threads, map flavour, async results that become ready after a generated number of polls - the 4 s polling '
         'sleep of the code is replaced by a no-op through a module-attribute shim) - the triplet lists of two consecutive batches under the scheduled pool must '
@@ -90,7 +92,7 @@ class FlavouredPool(stubs.ScheduledPool):
 
 @st.composite
 def l1_case(draw):
-    ncols = draw(st.one_of(st.integers(2, 6), st.integers(2, 6), st.integers(16, 22)))
+    ncols = draw(st.one_of(st.integers(2, 6), st.integers(2, 6), st.integers(2, 6), st.integers(16, 22), st.integers(10, 12)))
     nrows = draw(st.integers(8, 120))
     return {'ncols': ncols, 'nrows': nrows, 'seed': draw(st.integers(0, 2**32 - 1)),
             'label_pos': draw(st.integers(0, ncols - 1)), 'pairwise': draw(st.booleans()),
@@ -119,9 +121,12 @@ def l1_frames(case):
 
 def oracle_l1(case, rec):
     names, frames = l1_frames(case)
+    if 10 <= case['ncols'] <= 12 and '3mr' in case['heuristic']:
+        case = dict(case, heuristic='MI-numba-randomized')    # 3MR on top of > 32 constructed features is quadratic again
     args = lambda: stubs.make_args(heuristic=case['heuristic'], target_ranking_only='False' if case['pairwise'] else 'True',  # noqa: E731
                                    combination_number_upper_bound=int(case['cap']),
-                                   interaction_order=int(case['interaction_order']) if case['ncols'] <= 6 else 1,
+                                   interaction_order=(int(case['interaction_order']) if case['ncols'] <= 6
+                                                      else 2 if case['ncols'] <= 12 else 1),   # 10-12 columns: > 32 constructed features
                                    mi_stratified_sampling_ratio=float(case.get('ratio', 1.0)),
                                    include_noise_baseline_features='True' if case.get('noise') else 'False')
 
@@ -308,7 +313,59 @@ def oracle_real(case, rec):
                             f'first differing rows: {diff}; row counts {len(base_rows)} vs {len(r["rows"])}', kind=kind)
 
 
-ORACLES = {'C09/owned-schedule': oracle_l1, 'C09/real': oracle_real, 'C09/run-failed': oracle_real,
+def oracle_batching(case, rec):
+    """The ranking task in-process (owned pools reporting 1 and 16 workers) on a batch of more than 10^6 cells: the rows that
+    enter each mini-batch and the written scores must not depend on --num_threads."""
+    g = case['batching']
+    rng = np.random.Generator(np.random.PCG64(int(g['seed'])))
+    ncols, rows, mb = int(g['ncols']), int(g['rows']), int(g['minibatch'])
+    root = tempfile.mkdtemp(prefix='c09b-')
+    old_cwd = os.getcwd()
+    orig_pool, orig_cbr = tr.Pool, cr.compute_batch_ranking
+    try:
+        os.makedirs(os.path.join(root, 'data'))
+        lab = rng.integers(0, 2, size=rows)
+        cols = [np.where(rng.random(rows) < 0.6 + 0.05 * j, lab, rng.integers(0, 3 + j, size=rows)) for j in range(ncols - 1)]
+        with open(os.path.join(root, 'data', 'data.csv'), 'w') as fh:
+            fh.write(','.join([f'f{j}' for j in range(ncols - 1)] + ['label']) + '\n')
+            block = np.column_stack(cols + [lab]).astype(str)
+            fh.write('\n'.join(','.join(r) for r in block.tolist()) + '\n')
+        outputs, sizes = [], []
+        for threads in (1, 16):
+            seen = []
+
+            def spy(line_tmp_storage, *a, **k):
+                seen.append(len(line_tmp_storage))
+                return orig_cbr(line_tmp_storage, *a, **k)
+            cr.compute_batch_ranking = spy
+            tr.Pool = lambda n=None: stubs.InlinePool(ncpus=int(n or 1))
+            out = os.path.join(root, f'out{threads}')
+            os.chdir(root)
+            args = stubs.make_args(task='ranking', data_path=os.path.join(root, 'data'), data_source='csv-raw', output_folder=out,
+                                   minibatch_size=mb, subsampling=1, num_threads=threads, heuristic='MI-numba-randomized')
+            stubs.reset_globals()
+            try:
+                tr.outrank_task_conduct_ranking(args)
+            except SystemExit:
+                pass
+            with open(os.path.join(out, 'pairwise_ranks.tsv')) as fh:
+                outputs.append(sorted(fh.read().splitlines()[1:]))
+            sizes.append(list(seen))
+    finally:
+        tr.Pool, cr.compute_batch_ranking = orig_pool, orig_cbr
+        os.chdir(old_cwd)
+        shutil.rmtree(root, ignore_errors=True)
+    rec.nt(True, key=case)
+    rec.cls('cells-per-batch>10^6')
+    if sizes[0] != sizes[1]:
+        raise Violation(f'mini-batch sizes depend on the pool size: {sizes[0]} with --num_threads 1, {sizes[1]} with 16 '
+                        f'(--minibatch_size {mb}, {ncols} columns, {rows} rows)', kind='C09/batching')
+    if outputs[0] != outputs[1]:
+        diff = [(x, y) for x, y in zip(outputs[0], outputs[1]) if x != y][:2]
+        raise Violation(f'pairwise_ranks.tsv differs between --num_threads 1 and 16: {diff}', kind='C09/batching')
+
+
+ORACLES = {'C09/batching': oracle_batching, 'C09/owned-schedule': oracle_l1, 'C09/real': oracle_real, 'C09/run-failed': oracle_real,
            'C09/hash-seed': oracle_real, 'C09/pool-or-schedule': oracle_real}
 
 
@@ -332,10 +389,24 @@ def run(ctx):
             runs += [[4, 100 + 4, int(h)] for h in pick_hash_seeds(rng, 4)]
             plans.append(runs)
         parallel = 6
+    nb = 1 if ctx.tier == 'quick' else 6
+    bcases = []
+    for bi in range(nb):
+        ncols = int(rng.integers(5, 9))
+        mb = (2**24 // (ncols * 16)) + int(rng.integers(3000, 9000))
+        bcases.append({'batching': {'ncols': ncols, 'minibatch': mb, 'rows': mb + int(rng.integers(1100, 2000)),
+                                    'seed': int(rng.integers(0, 2**31))}})
     observed = []
     cases = [{'cfg': cfg, 'runs': runs, 'parallel': parallel} for cfg, runs in zip(cfgs, plans)]
-    with ThreadPoolExecutor(max_workers=2 if ctx.tier == 'quick' else 3) as ex:
+    with ThreadPoolExecutor(max_workers=3 if ctx.tier == 'quick' else 4) as ex:
+        # the in-process batching cases change the cwd / module attributes: they run one after the other in ONE thread while
+        # the real-pool cases (subprocesses) run in the others
+        bfut = ex.submit(lambda: [ctx.run_oracle('C09/batching', oracle_batching, b) for b in bcases])
         outcomes = list(ex.map(lambda c: ctx.run_oracle('C09/real', oracle_real, c), cases))
+        bres = bfut.result()
+    for b, res in zip(bcases, bres):
+        if res is not None:
+            ctx.report(res[0], b, res[1])
     for case, res in zip(cases, outcomes):
         observed.append(case.pop('_observed', None))
         if res is not None:
